@@ -341,3 +341,50 @@ def interleave(*gens):
 
 def now():
     return time.monotonic()
+
+
+# ---- file names (C18-C20) ------------------------------------------------------------------------------------------------
+# A "file path" is any string the operating system accepts: relative to the working directory, with characters that mean
+# something to URL / URI parsers (an ISO timestamp 'T09:30:00' makes 'trades-2024-10-03T09' look like a scheme), blanks,
+# non-ASCII letters, a leading '~' or '-'.  Checks run with the scratch directory as working directory (in_dir).
+FILE_NAME_CLASSES = [
+    ('plain', None),
+    ('relative-with-colons', 'trades-2024-10-03T09:30:00'),
+    ('relative-with-colons', 'snapshot:1'),
+    ('blanks-and-non-ascii', os.path.join('{abs}', 'données été 1')),
+    ('url-characters', os.path.join('{abs}', 'a#b?c%20d&e=f+g')),
+    ('relative-in-a-subdirectory', os.path.join('sub dir', 'part-0001')),
+    ('relative-with-colons', 'C:drive-like'),
+    ('leading-tilde-or-dash', '~home'),
+    ('leading-tilde-or-dash', '-dash'),
+]
+FILE_NAME_TAGS = ['file-name:' + c for c in ('relative-with-colons', 'blanks-and-non-ascii', 'url-characters', 'relative-in-a-subdirectory', 'leading-tilde-or-dash')]
+
+
+def file_path(tmpdir, default_name, ext, selector, out=None):
+    """-> a path for a scratch file: `default_name` in tmpdir, or - by selector - one of FILE_NAME_CLASSES (relative names are
+    relative to tmpdir, which must be the working directory: see in_dir)"""
+    cls, name = FILE_NAME_CLASSES[selector % len(FILE_NAME_CLASSES)]
+    if name is None:
+        return os.path.join(tmpdir, default_name)
+    if out is not None:
+        out.tags.append('file-name:' + cls)
+    path = name.replace('{abs}', tmpdir) + ext
+    d = os.path.dirname(path)
+    if d:
+        os.makedirs(d if os.path.isabs(d) else os.path.join(tmpdir, d), exist_ok=True)
+    return path
+
+
+class in_dir:
+    """run a block with `path` as the working directory"""
+
+    def __init__(self, path):
+        self.path = path
+
+    def __enter__(self):
+        self.old = os.getcwd()
+        os.chdir(self.path)
+
+    def __exit__(self, *a):
+        os.chdir(self.old)
